@@ -350,6 +350,22 @@ impl SubCheck for SetIter {
         let mut r: Vec<Weekday> = s.iter(WD[start as usize]).rev().collect();
         r.reverse();
         ensure_eq!(r, exp, "reverse traversal");
+        // provided iterator methods agree with stepping (fresh, and after a few steps from both ends)
+        let k = (pat & 7) as usize;
+        ensure_eq!(call("last", || s.iter(WD[start as usize]).last())?, exp.last().copied(), "last() of set {a:07b} from {start}");
+        ensure_eq!(call("count", || s.iter(WD[start as usize]).count())?, exp.len(), "count()");
+        ensure_eq!(call("nth", || s.iter(WD[start as usize]).nth(k))?, exp.get(k).copied(), "nth({k})");
+        ensure_eq!(call("nth_back", || s.iter(WD[start as usize]).nth_back(k))?, exp.iter().rev().nth(k).copied(), "nth_back({k})");
+        ensure_eq!(call("rev.last", || s.iter(WD[start as usize]).rev().last())?, exp.first().copied(), "rev().last()");
+        ensure_eq!(call("max", || s.iter(WD[start as usize]).map(|w| w.num_days_from_monday()).max())?, exp.iter().map(|w| w.num_days_from_monday()).max(), "max over the iteration");
+        let (front, back) = ((pat >> 3 & 3) as usize, (pat >> 5 & 3) as usize);
+        let mut it = s.iter(WD[start as usize]);
+        let mut rest: VecDeque<Weekday> = exp.iter().copied().collect();
+        for _ in 0..front { it.next(); rest.pop_front(); }
+        for _ in 0..back { it.next_back(); rest.pop_back(); }
+        ensure_eq!(call("last after steps", || it.clone().last())?, rest.back().copied(), "last() after {front} front and {back} back steps of set {a:07b} from {start}");
+        ensure_eq!(call("nth after steps", || it.clone().nth(1))?, rest.get(1).copied(), "nth(1) after steps");
+        ensure_eq!(call("collect after steps", || it.collect::<Vec<_>>())?, rest.iter().copied().collect::<Vec<_>>(), "remaining members after steps");
         let _ = (wd_idx(WD[0]), mo_idx(MONTHS[0]));
         Ok(())
     }
